@@ -44,6 +44,12 @@ static int extra_op(const char *op) {
     OP("array_info") { int A = ti(); fout o = fo(ti()); char c[33]; CGNS_ENUMT(DataType_t) ty = 0; int nd = -1; cgsize_t dv[12] = {0};
         ier = cg_array_info(A, c, &ty, &nd, dv); if (!ier) fref(o, c);
         IER(ier); if (!ier) printf(" t=%d nd=%d d0=%lld", (int)ty, nd, (long long)dv[0]); pf("name", o); NL; }
+    OP("field_id") { cgint_f B = ti(), Z = ti(), S = ti(), F = ti(), ffn = fn; double id = 0;
+        if (MODEF) cg_field_id_f(&ffn, &B, &Z, &S, &F, &id, &ier); else ier = cg_field_id(fn, B, Z, S, F, &id);
+        IER(ier); if (!ier) printf(" nz=%d", id != 0); NL; }
+    OP("1to1_id") { cgint_f B = ti(), Z = ti(), I = ti(), ffn = fn; double id = 0;
+        if (MODEF) cg_1to1_id_f(&ffn, &B, &Z, &I, &id, &ier); else ier = cg_1to1_id(fn, B, Z, I, &id);
+        IER(ier); if (!ier) printf(" nz=%d", id != 0); NL; }
     OP("gopath") { fstr p = ts(); ier = cg_gopath(fn, eqv(p, 8000)); IER(ier); NL; }
     OP("geo_write") { int B = ti(), F = ti(); fstr n = ts(), f = ts(), c = ts(); int G = -1;
         ier = cg_geo_write(fn, B, F, eqv(n, 8000), eqv(f, 8000), eqv(c, 8000), &G); IER(ier); if (!ier) printf(" G=%d", G); NL; }
